@@ -25,6 +25,8 @@ func init() {
 }
 
 func runC02(c *core.Ctx) {
+	c.Rule("JOINDUP", "joins reject sides with equally named columns")
+	checkJoinNameCollisions(c, "JOINDUP")
 	c.Rule("UNIQCMP", "unique column names are compared exactly")
 	checkUniqueNameComparison(c, "UNIQCMP")
 	c.Rule("ALIASMAP", "a Typecheck method does not modify the name mapping a child returned")
